@@ -13,6 +13,7 @@ drop of a slot, nothing outside the container written.
 import Micromap.Proofs.SysInv
 import Micromap.Proofs.Disjoint
 import Micromap.Proofs.Ledger
+import Micromap.Props.C02
 
 namespace Micromap.Props.C17
 open Micromap SetAlg Dict
@@ -66,6 +67,32 @@ theorem ledger_any_oracle (hv : E.vGlue = true) (cap : Nat) (w0 : World K V Q) (
   obtain ⟨sf, back, tr, lf, h1, h2, _, h4, h5⟩ :=
     Ledger.lmhist_conserves E hv w ops ⟨Raw.new cap, w0⟩ [] (Rep.new cap) hb
   exact ⟨sf, back, tr, lf, h1, h2, h4, by simpa using h5⟩
+
+section sysledger
+open Ledger Own OwnSys
+
+/-- **… over the whole operation language and all four registers** (the system-level ledger of C02,
+    read for an arbitrary oracle: `E` carries no hypothesis there either).  Any history of safe
+    operations — entry API, `retain`, iterators and drains consumed, dropped or forgotten, set
+    algebra, clone, `extend`, serde — followed by the drop of every register: no step reaches `ub`,
+    the registers end empty, and everything passed in, created by `Clone` or decoded was handed back
+    to the caller, dropped (once: it is a multiset equation, read through every weighting `w`) or is
+    in the final leak list.  A lying `==` decides which branch runs, never whether the books balance. -/
+theorem run_and_drop_ledger_any_oracle (capM capS : Nat → Nat) (w0 : World K V Q) (hb : Benign w0)
+    (ops : List (Op K V Q)) (w : Obj K V → Nat) (hv : HV E w)
+    (hops : ∀ op ∈ ops, op.safeApi = true ∧ op.regsOk = true ∧ op.WOk w ∧ ∀ j, op ≠ .inject j) :
+    (∀ o ∈ (run E R (Sys.init capM capS w0) (ops ++ [.endCase])).2, o.outcome ≠ .ub) ∧
+    ∃ last lk dec, (run E R (Sys.init capM capS w0) (ops ++ [.endCase])).2.getLast? = some last ∧
+      last.outcome = .ok ∧ last.leaks = w0.leaked ++ lk ∧
+      sysLive w (run E R (Sys.init capM capS w0) (ops ++ [.endCase])).1 = 0 ∧
+      DecRun E R (Sys.init capM capS w0) (ops ++ [.endCase]) dec ∧
+      wsum w (runIn (ops ++ [.endCase])) + wsum w (runCreated (run E R (Sys.init capM capS w0) (ops ++ [.endCase])).2) +
+          wsum w dec =
+        wsum w (runOwned (ops ++ [.endCase]) (run E R (Sys.init capM capS w0) (ops ++ [.endCase])).2) +
+          wsum w (runDropped (run E R (Sys.init capM capS w0) (ops ++ [.endCase])).2) + wsum w lk :=
+  C02.run_and_drop_ledger E R capM capS w0 hb ops w hv hops
+
+end sysledger
 
 /-- one step under any oracle and any injection. -/
 theorem step_safe_any_oracle {sys : Sys K V Q} (hs : SysInv E sys) (op : Op K V Q)
